@@ -218,7 +218,7 @@ func invokeIn(e *Entry, b []byte, s *slot) (out Outcome) {
 		}
 	}()
 	o, err := e.Call(b)
-	return Outcome{Obj: o, Err: err}
+	return Outcome{Obj: o, Err: err, Iface: e.Iface}
 }
 
 var histEntry = map[string]string{"cert": "ParseCertificate", "tbs": "ParseTBSCertificate", "list": "ParseCertificates"}
